@@ -33,13 +33,13 @@ def exh_cfg(family, N, D, P, subs=1, works=(1, 2), auto=0):
 
 def gen_cfg(N, D, P, subs, depth, ops, works=(1, 2), lean=True, ties=False, auto=0):
     return cfg({"N": N, "Works": set(works), "MaxDepth": D, "P": P, "MaxSubs": subs, "AutoEvery": auto, "Depth": depth,
-                "Ops": {q(o) for o in ops}, "Lean": lean, "Ties": ties, "Script": "ScriptNone"}, spec="GSpec",
-               invariants=["Emit"]).replace("Script = ScriptNone", "Script <- TheScript")
+                "Ops": {q(o) for o in ops}, "Lean": lean, "Ties": ties, "Script": "ScriptNone", "Shape": "ShapeNone"}, spec="GSpec",
+               invariants=["Emit"]).replace("Script = ScriptNone", "Script <- TheScript").replace("Shape = ShapeNone", "Shape <- TheShape")
 
 
-def script_module(script):
-    return ("---- MODULE HCRun ----\nEXTENDS HeaderChainGen\nTheScript == <<%s>>\n====\n" %
-            ",".join(q(k) for k in script))
+def script_module(script, shape=()):
+    return ("---- MODULE HCRun ----\nEXTENDS HeaderChainGen\nTheScript == <<%s>>\nTheShape == <<%s>>\n====\n" % (
+        ",".join(q(k) for k in script), ",".join(str(x) for x in shape)))
 
 
 # Per-property plans. exh: list of (family, N, D, P, subs); gens: list of dicts; runs: harness runs per gen
@@ -52,10 +52,12 @@ def plan(prop, tier):
         return dict(N=N, D=D, P=P, subs=subs, depth=depth, ops=ops, num=n, S=S, big=big, flags=list(flags),
                     works=works, lean=lean, ties=ties)
 
-    def sc(script, N=4, D=4, P=4, subs=0, works=(1, 2), S=(1, 3), flags=(), lean=True, ties=False, auto=0):
+    def sc(script, N=4, D=4, P=4, subs=0, works=(1, 2), S=(1, 3), flags=(), lean=True, ties=False, auto=0, scnum=0, big=None,
+           shape=()):
         """bounded-exhaustive scenario family: all trees over N blocks, all orders, the scripted step kinds"""
-        return dict(N=N, D=D, P=P, subs=subs, depth=len(script), ops=(), num=0, S=S, big=None, flags=list(flags),
-                    works=works, lean=lean, script=list(script), ties=ties, auto=auto)
+        return dict(N=N, D=D, P=P, subs=subs, depth=len(script), ops=(), num=0, S=S, big=big, flags=list(flags),
+                    works=works, lean=lean, script=list(script), ties=ties, auto=auto, scnum=scnum,
+                    shape=tuple(shape))
 
     G = "grow"
     maint_ops = ("submit", "clean", "save", "load")
@@ -70,7 +72,12 @@ def plan(prop, tier):
                  g(D=2, P=3, ops=maint_ops, n=num // 2, works=(1,), ties=True),
                  # the implementation's own scale: 5000 headers per block, exported Clean / Load (prune depth 10000),
                  # the automatic clean at height 10000
-                 sc([G, G, G, "clean", "save", "load"], N=3, D=3, P=2, S=(5000,), flags=["-realclean"], auto=2)]
+                 sc([G, G, G, "clean", "save", "load"], N=3, D=3, P=2, S=(5000,), flags=["-realclean"], auto=2),
+                 # a heavier fork of the same height after a Save, saved again and loaded
+                 sc([G, G, "save", G, "save", "load"]),
+                 # a fork of a fork that is partly below the prune depth at Clean and overtakes afterwards
+                 sc([G] * 11 + ["clean", G], N=12, D=12, P=1, works=(1, 3), shape=(0, 1, 2, 3, 4, 5, 1, 7, 8, 8, 10, 11),
+                    scnum=600 if quick else 6000)]
     elif prop == "C07":
         exh = [("core", 4, 1, 2, 2)] + ([] if quick else [("core", 5, 1, 2, 1)])
         gens = [g(D=1, P=2, subs=2, ops=("submit", "subscribe", "clean"), big=400),
@@ -88,7 +95,9 @@ def plan(prop, tier):
                 for d in (0, 1, 2)] + [g(D=6, P=6, ops=("submit", "clean"), flags=["-twin"]),
                                        g(N=5, D=1, P=2, depth=9, ops=("submit",), flags=["-twin"], lean=False)]
         gens += [sc([G, G, G, "submit", "submit"], D=0, P=2, flags=["-twin"], lean=False), sc([G, G, G, "submit", "submit"], D=1, P=2, flags=["-twin"], lean=False), sc([G, G, "clean", "submit", "submit"], D=1, P=1, flags=["-twin"], lean=False),
-                 sc([G, G, G, "submit", "submit"], D=1, P=2, flags=["-twin"], lean=False, works=(1,), ties=True)]
+                 sc([G, G, G, "submit", "submit"], D=1, P=2, flags=["-twin"], lean=False, works=(1,), ties=True),
+                 # a mark trims a branch back to a fork point; headers that are already accepted are submitted again
+                 sc([G, G, G, "mark", "subscribe", "submit", "submit"], N=3, subs=1, lean=False)]
     elif prop == "C09":
         exh = [("maint", 4, 1, 2, 1)]
         gens = [g(D=1, P=1, ops=maint_ops, big=400), g(D=1, P=2, ops=maint_ops, S=(1, 3, 7)),
@@ -119,7 +128,9 @@ def plan(prop, tier):
                  # a store written before branches existed (version-0 files), or an empty store, is loaded first
                  dict(sc(["legacy", G, G, "clean", "save", "load", G], D=2, P=2), big=400),
                  sc(["legacy", G, "save", "load", G, "clean", G], D=4, P=1, S=(1, 7)),
-                 sc([G, G, "save", G, "save", "load"], N=3, D=3, P=2, S=(5000,), flags=["-realclean"], auto=2)]
+                 sc([G, G, "save", G, "save", "load"], N=3, D=3, P=2, S=(5000,), flags=["-realclean"], auto=2),
+                 # Save, a reorganisation that forks below a 1000-header file boundary, Save by the same repository, Load
+                 sc([G, G, G, "save", G, G, G, "save", "load"], N=6, D=6, P=1, S=(1,), big=500, scnum=800 if quick else 8000)]
     elif prop == "C12":
         exh = [("maint", 4, 1, 2, 1)]
         gens = [g(D=1, P=2, ops=("submit", "clean", "save", "reload"), flags=["-crash"], big=400),
@@ -136,7 +147,9 @@ def plan(prop, tier):
                 g(N=5, D=5, P=5, depth=10, ops=("submit", "mark"))]
         gens += [sc([G, G, G, G, "clean", "mark", "save", "load"]), sc([G, G, G, G, "mark", "submit", "unmark", "submit"], lean=False), sc([G, G, G, "save", "mark", G, "save", "load"], works=(1, 3)),
                  sc([G, G, G, G, "mark", "submit"], lean=False, works=(1,), ties=True),
-                 sc([G, G, "mark", "clean", G, G, "clean"], D=4, P=1)]
+                 sc([G, G, "mark", "clean", G, G, "clean"], D=4, P=1),
+                 # chain, fork, fork of the fork; a mark underneath all of them
+                 sc([G, G, G, G, G, "mark"], N=5, D=5, P=5, shape=(0, 1, 1, 3, 3))]
     elif prop == "C19":
         exh = [("core", 4, 1, 2, 1)]
         gens = [g(D=1, P=2, ops=maint_ops, flags=["-probe"], S=(1, 3, 7)),
@@ -180,12 +193,19 @@ def generate(scratch, gc, s, idx):
         ops.discard("unmark")
         if "unmark" in sc:
             ops.add("mark")
-        out, st = run_tlc(scratch, "HCRun", gen_cfg(gc["N"], gc["D"], gc["P"], gc["subs"], len(sc), sorted(ops),
-                                                    gc.get("works", (1, 2)), gc.get("lean", True), gc.get("ties", False),
-                                                    gc.get("auto", 0)),
-                          files={"HCRun.tla": script_module(sc)}, workers=1, timeout=1800, name="scr%d" % idx)
-        if st.get("error") or st.get("violation") or "Model checking completed" not in out:
-            raise Infra("scripted generation failed: %s\n%s" % (st, out[-2000:]))
+        c = gen_cfg(gc["N"], gc["D"], gc["P"], gc["subs"], len(sc), sorted(ops), gc.get("works", (1, 2)), gc.get("lean", True),
+                    gc.get("ties", False), gc.get("auto", 0))
+        if gc.get("scnum"):
+            # a scenario family too large to enumerate: random behaviours of the scripted shape
+            out, st = run_tlc(scratch, "HCRun", c, files={"HCRun.tla": script_module(sc, gc.get("shape", ()))}, workers=1, simulate=gc["scnum"],
+                              depth=len(sc) + 2, tlc_seed=s, timeout=1800, name="scr%d" % idx)
+            if st.get("error") or st.get("violation"):
+                raise Infra("scripted simulation failed: %s\n%s" % (st, out[-2000:]))
+        else:
+            out, st = run_tlc(scratch, "HCRun", c, files={"HCRun.tla": script_module(sc, gc.get("shape", ()))}, workers=1,
+                              timeout=1800, name="scr%d" % idx)
+            if st.get("error") or st.get("violation") or "Model checking completed" not in out:
+                raise Infra("scripted generation failed: %s\n%s" % (st, out[-2000:]))
         behs = printed(out, "BEH")
         if not behs:
             raise Infra("scripted generation produced nothing:\n" + out[-2000:])
